@@ -15,8 +15,20 @@ func stdB64(s string) string { return base64.StdEncoding.EncodeToString([]byte(s
 func runExtra(r *common.Rand) {
 	runCodec(r)
 	nc := run.Scale(300, 80000)
-	for i := 0; i < nc; i++ {
-		runConc(genConc(r))
+	for i := 0; i < nc; i += 100 {
+		var batch []concCase
+		for j := i; j < nc && j < i+100; j++ {
+			batch = append(batch, genConc(r))
+		}
+		runConcBatch(batch)
+	}
+	if crashkit.Available() {
+		for _, cc := range fixedDelayed() {
+			runConc(cc)
+		}
+		for i := run.Scale(5, 60); i > 0; i-- {
+			runConc(genDelayed(r))
+		}
 	}
 	if !crashkit.Available() {
 		run.Extra["crash_injection"] = "strace injection unavailable: K cases skipped"
@@ -56,8 +68,23 @@ func replayExtra(c map[string]string) {
 			fmt.Fprintln(os.Stderr, "bad replay threads:", err)
 			os.Exit(2)
 		}
-		for i := 0; i < 200; i++ { // schedules are not controlled: repeat
-			runConc(cc)
+		if d, ok := c["delay"]; ok && d != "null" && d != "" {
+			cc.Delay = &delaySpec{}
+			if err := json.Unmarshal([]byte(d), cc.Delay); err != nil {
+				fmt.Fprintln(os.Stderr, "bad replay delay:", err)
+				os.Exit(2)
+			}
+			if crashkit.Available() {
+				runConc(cc)
+			}
+			return
+		}
+		for i := 0; i < 4; i++ { // schedules are not controlled: repeat
+			batch := make([]concCase, 50)
+			for j := range batch {
+				batch[j] = cc
+			}
+			runConcBatch(batch)
 		}
 	case "K":
 		cc := crashCase{Kind: "K", K: -1}
